@@ -272,7 +272,7 @@ def tasks(tier):
     # the backend's answers are those of Cache.<method> (through FanoutCache, C13): their contracts, in particular
     # "a key is gone from the instant its expiry time is reached" for every operation alike
     from contracts import c03
-    ts += c03.dependency_tasks('C19', ['set', 'add', 'get', 'touch', 'incr', 'pop', 'delete', '__contains__'])
+    ts += c03.dependency_tasks('C19', ['set', 'add', 'get', 'touch', 'incr', 'pop', 'delete', '__contains__'], tier=tier)
     return ts
 
 
